@@ -65,6 +65,12 @@ def app(environ, start_response):
             hdrs.append(("Content-Length", cl))
         start_response("200 OK", hdrs)
         return environ["wsgi.file_wrapper"](f)
+    elif kind == "echo":
+        import hashlib
+        data = environ["wsgi.input"].read()
+        body = ("echo method=%s path=%s query=%s len=%d sha1=%s te=%s x=%s\n" % (
+            environ["REQUEST_METHOD"], path, environ.get("QUERY_STRING", ""), len(data), hashlib.sha1(data).hexdigest(),
+            environ.get("HTTP_TRANSFER_ENCODING", "-"), environ.get("HTTP_X_LONG", "-")[-12:])).encode()
     elif kind == "hang":
         _touch("started-" + arg)
         while True:
